@@ -131,6 +131,38 @@ func (w *vfWorld) tamper(a vfAction) {
 		for k, v := range w.browsers[a.From].jar {
 			b.jar[k] = v
 		}
+	case "plant":
+		// hand-written cookies whose names look like the deployment's own (its prefix + a short suffix) and whose
+		// values are readable text -- a local path, an e-mail, a token-like word -- each carrying a marker unique in
+		// this world: none of them was produced under the key, so nothing of them may ever surface anywhere
+		m, _, _ := vfCookieNames()
+		prefix := m[:strings.LastIndex(m, "_")+1]
+		var sfx []string
+		for c := 'a'; c <= 'z'; c++ {
+			sfx = append(sfx, string(c))
+		}
+		sfx = append(sfx, "state", "return", "target", "path", "redirect", "rd", "next", "csrf", "nonce", "email", "user", "id", "session", "ctx", "flow", "login")
+		for i, sx := range sfx {
+			name := prefix + sx
+			if _, known := vfCname(name); known {
+				continue
+			}
+			mark := fmt.Sprintf("planted-%s-%x", sx, w.r.next()&0xffffff)
+			var v string
+			switch i % 4 {
+			case 0:
+				v = "/" + mark + "/page?confirm=yes"
+			case 1:
+				v = url.QueryEscape("/" + mark + "/page?confirm=yes&x=1")
+			case 2:
+				v = mark + "@example.net"
+			default:
+				v = base64.StdEncoding.EncodeToString([]byte("/" + mark + "/p"))
+				mark = v
+			}
+			w.planted = append(w.planted, mark)
+			b.jar[name] = v
+		}
 	}
 }
 
@@ -306,6 +338,7 @@ func vfGenCfg(r *vfRand) vfWorldCfg {
 	if r.chance(1, 3) {
 		c.Excluded = []string{"/public", "/health"}
 	}
+	c.TxnRedirect = r.chance(1, 8)
 	switch r.intn(4) {
 	case 0:
 		c.PostLogout = ""
